@@ -246,8 +246,26 @@ def check_send(env, data, script, timeout, rec, payload):
 def setup():
     core.assert_repo()
     from Pyro5 import socketutil, errors
+    # the process has used the module's real sockets before (what every daemon and proxy does): listening socket, client connections in
+    # blocking and in timeout mode, real traffic both ways. The scripted runs that follow must not depend on that history
+    import socket as _socket
+    lst = socketutil.create_socket(bind=("127.0.0.1", 0))
+    try:
+        for tmo in (None, 2.0, 0.5):
+            c = socketutil.create_socket(connect=lst.getsockname()[:2], timeout=tmo)
+            a, _ = lst.accept()
+            socketutil.send_data(c, b"warm-up")
+            socketutil.receive_data(a, 7)
+            a.close()
+            c.close()
+        WARMUP["connections"] = 3
+    finally:
+        lst.close()
     socketutil.time = type("NoSleep", (), {"sleep": staticmethod(lambda s: None)})
     return socketutil, errors
+
+
+WARMUP = {"connections": 0}
 
 
 def plan(tier, seed):
@@ -332,7 +350,7 @@ def run_shard(shard, rec):
                     elif k < 0.85:
                         script.append(("e", r.choice([errno.EINTR, errno.EAGAIN, errno.EINPROGRESS])))
                     elif k < 0.9:
-                        script.append(("e", r.choice([errno.ECONNRESET, errno.EPIPE, errno.EBADF, errno.ENOTCONN])))
+                        script.append(("e", r.choice([errno.ECONNRESET, errno.EPIPE, errno.EBADF, errno.ENOTCONN, errno.EALREADY, errno.ECONNABORTED, errno.EHOSTUNREACH, errno.ENOBUFS, errno.EINVAL])))
                     elif k < 0.95:
                         script.append(("t",))
                     else:
@@ -356,7 +374,7 @@ def run_shard(shard, rec):
                     elif k < 0.9:
                         script.append(("e", r.choice([errno.EINTR, errno.EAGAIN, errno.EINPROGRESS])))
                     elif k < 0.96:
-                        script.append(("e", r.choice([errno.ECONNRESET, errno.EPIPE])))
+                        script.append(("e", r.choice([errno.ECONNRESET, errno.EPIPE, errno.ENOTCONN, errno.EALREADY, errno.ECONNABORTED, errno.EHOSTUNREACH])))
                     else:
                         script.append(("t",))
                 script = tuple(script)
